@@ -13,6 +13,12 @@ Histories (see "provenance and histories" below): the structures reach the entry
 (fresh / derived / copied / edited in place after reads / used before), configuration objects (OverSamplingUniform,
 OverSamplingDataset, image_mesh.Overlay, SimulatorImaging, the PSF, image_mesh.Hilbert) are SHARED by the two runs.
 All inputs are dyadic multiples of the pixel scale, so every double operation of the implementation is exact.
+Hardening (phase 4): input KINDS (Python ints / floats, numpy float64 / float32 scalars, lists, float / integer ndarrays for pixel
+scales, origins, points; typed mask arrays; float32 / integer / list grid and array values; user subclasses of Mask2D / Grid2D /
+Array2D, Kernel2D as an Array2D) chosen independently for the two runs; every shared configuration object and every shared DEFAULT
+argument object of the library is fingerprinted before / after; inexact (non-dyadic) overlay / rectangular-mesh cases are checked
+with a tolerance instead of being dropped; far origins, larger frames; sibling entry points: constructor classmethods, methods that
+rebuild a frame, the util layer on plain arrays, Kernel2D / VectorYX2D, mesh.Rectangular.mapper_grids_from, the 1-D variants.
 """
 import random
 import numpy as np
@@ -27,7 +33,7 @@ COQ_FALLBACK = ("Model.C12", "spec_ok")
 COQ_IMPORTS = ""
 SHARD = 150
 EXHAUSTIVE = {}
-RULE = ("masks of shape 1x1..7x8 (mostly non-square; styles: random density 0.15-0.9, single pixel, ring with hole, full, two "
+RULE = ("masks of shape 1x1..7x8, 6% up to 21x20 (mostly non-square; styles: random density 0.15-0.9, single pixel, ring with hole, full, two "
         "components, outer-ring pixels, circular), pixel scales (py, px) in {1/4,1/2,1,3/2,2,3}^2 (often unequal), in 30% of the cases "
         "times 2^e with e in {-30,-27,10,20} per axis (tiny and huge magnitudes, 40% of them with a different e per axis), origin o = "
         "(py*a/4, px*b/4) and translation d = (py*e/4, px*f/4), a,b,e,f in -12..12, d != 0 (sometimes o = 0, sometimes one component "
@@ -36,7 +42,8 @@ RULE = ("masks of shape 1x1..7x8 (mostly non-square; styles: random density 0.15
         "mask of an Array2D / Grid2D (also after arithmetic, native storage), copy / deepcopy / pickle, in-place edits after every "
         "property was read, inverted, mask of a masked dataset, derive_mask.edge/border, already used; datasets fresh or derived; "
         "12% of the cases under general.structures.native_binned_only=True, radial projections also with "
-        "general.grid.remove_projected_centre=True. Non-trivial = at least 2 unmasked pixels and o+d != 0; distinct = distinct JSON input.")
+        "general.grid.remove_projected_centre=True. Input kinds (float / int / numpy scalar / float32 / list / ndarray; typed mask arrays; "
+        "user subclasses) independently per run; 10% of the origins / translations up to 1000 pixels away. Non-trivial = at least 2 unmasked pixels and o+d != 0; distinct = distinct JSON input.")
 TRUSTED = ["hand-written Gallina model coq/Model/C12.v (util layer + origin plumbing of every call site), tied to /repo by this run: "
            "exact rational comparison inside Coq (vm_compute) at both origins, plus the metamorphic relation on the implementation",
            "blurring, resized and rescaled masks are functions of the boolean mask array only (their values are taken from the "
@@ -92,8 +99,39 @@ def geom_of(mask): return (int(mask.shape_native[0]), int(mask.shape_native[1]),
 def geom_shift(g, d): return (g[0], g[1], g[2], padd(g[3], d))
 def jg(g): return [[str(p[0]), str(p[1])] for p in g]
 
+# ---- input KINDS: the same frame / point / values handed over as Python floats, Python ints, numpy scalars (float64, float32),
+# lists, ndarrays (float or integer dtype).  All generated values are exactly representable in every kind used (float32 only when
+# the value is a float32), so the expected results do not depend on the kind; the kind is chosen independently for the two runs.
+FRAME_KINDS = ["float"] * 5 + ["int", "np64", "list", "nparr", "npint", "f32"]
+def kval(v, kind):
+    x = float(v)
+    if kind in ("int", "npint"): return int(F(v)) if F(v).denominator == 1 and abs(F(v)) < 2 ** 53 else x
+    if kind == "np64": return np.float64(x)
+    if kind == "f32":
+        with np.errstate(all="ignore"): y = np.float32(x)
+        return y if np.isfinite(y) and F(float(y)) == F(v) else x
+    return x
+def kpair(p, kind):
+    a, b = kval(p[0], kind), kval(p[1], kind)
+    if kind == "list": return [a, b]
+    if kind == "nparr": return np.array([a, b])
+    if kind == "npint": return np.array([a, b])          # integer dtype when both components are integral
+    return (a, b)
+def fkw(ps, o):
+    """pixel_scales / origin keyword arguments of the frame (ps, o) in the input kind of this run"""
+    k = CTX.get("fkind", "float")
+    return dict(pixel_scales=kpair(ps, k), origin=kpair(o, k))
+
 def fresh_mask(aa, m, ps, o):
-    return aa.Mask2D(mask=np.array(m, dtype=bool), pixel_scales=(fl(ps[0]), fl(ps[1])), origin=(fl(o[0]), fl(o[1])))
+    return aa.Mask2D(mask=np.array(m, dtype=bool), **fkw(ps, o))
+
+USER_CLASSES = {}
+def user_class(aa, name):
+    """trivial user-defined SUBCLASSES of the accepted classes (dispatch on type(x) instead of isinstance shows here)"""
+    if name not in USER_CLASSES:
+        base = getattr(aa, name)
+        USER_CLASSES[name] = type("User" + name, (base,), {})
+    return USER_CLASSES[name]
 
 # ------------------------------------------------------------------------------------------------ provenance and histories
 # Every entry point is observed on masks / grids / arrays that reach it through DIFFERENT routes (chosen independently for the
@@ -102,9 +140,9 @@ def fresh_mask(aa, m, ps, o):
 # with the same boolean array, pixel scales and origin, so the expected results (Coq model, relation) do not depend on the
 # route; the frame the route really delivered is itself recorded as a result ("geom") and must translate by d.
 ROUTES = {}
-CTX = {"prov": "fresh", "gprov": 0, "aprov": 0, "rng": None, "made": [], "geoms": [], "args": [], "memo": None}
+CTX = {"prov": "fresh", "gprov": 0, "aprov": 0, "fkind": "float", "pkind": "float", "rng": None, "made": [], "geoms": [], "args": [], "memo": None}
 MASK_PROVS = ["fresh", "fresh", "fresh", "list", "resized", "sliced", "array_mask", "grid_mask", "copy", "pickle", "edited",
-              "edited_all_false", "inverted", "dataset_mask", "derived_edge", "used"]
+              "edited_all_false", "inverted", "dataset_mask", "derived_edge", "used", "typed_array", "subclass", "origin_assigned"]
 
 def mask_fp(mask):
     return ([[bool(b) for b in r] for r in np.array(mask)], (fr(mask.pixel_scales[0]), fr(mask.pixel_scales[1])),
@@ -125,9 +163,23 @@ def read_everything(aa, mask):
 def build_mask(aa, m, ps, o, prov, r):
     import copy, pickle
     H, W = len(m), len(m[0])
-    kw = dict(pixel_scales=(fl(ps[0]), fl(ps[1])), origin=(fl(o[0]), fl(o[1])))
+    kw = fkw(ps, o)
     if prov == "fresh": return fresh_mask(aa, m, ps, o)
     if prov == "list": return aa.Mask2D(mask=[list(map(bool, row)) for row in m], **kw)
+    if prov == "typed_array":       # the boolean array handed over as an integer / float / uint8 / object array, or as nested int lists
+        dt = r.choice([int, float, np.uint8, np.float32, object, "intlist"])
+        return aa.Mask2D(mask=[[int(b) for b in row] for row in m] if dt == "intlist" else np.array(m, dtype=bool).astype(dt), **kw)
+    if prov == "origin_assigned":
+        # read -> in-place edit of the FRAME by the user -> re-read: the object is built at another origin, every geometry-valued
+        # property is read from it, then its origin attribute is assigned
+        o0 = (o[0] + ps[0] * F(r.randint(-8, 8), 4), o[1] - ps[1] * F(r.randint(1, 8), 4))
+        mask = fresh_mask(aa, m, ps, o0)
+        read_everything(aa, mask)
+        mask.origin = kw["origin"]
+        return mask
+    if prov == "subclass":
+        cls = user_class(aa, "Mask2D")
+        return cls(mask=np.array(m, dtype=bool), **kw) if r.random() < 0.7 else cls(mask=np.array(m, dtype=bool), **kw).copy()
     if prov in ("resized", "sliced"):
         a, b = r.randint(0, 2), r.randint(0, 2)
         big = [[True] * (W + 2 * b) for _ in range(H + 2 * a)]
@@ -171,7 +223,7 @@ def build_mask(aa, m, ps, o, prov, r):
         return fresh_mask(aa, inv, ps, o).invert()
     if prov == "dataset_mask":
         data = aa.Array2D.no_mask(values=np.ones((H, W)), **kw)
-        ds = aa.Imaging(data=data, noise_map=aa.Array2D.no_mask(values=np.ones((H, W)), **kw)).apply_mask(mask=fresh_mask(aa, m, ps, o))
+        ds = aa.Imaging(data=data, noise_map=aa.Array2D.no_mask(values=np.ones((H, W)), **fkw(ps, o))).apply_mask(mask=fresh_mask(aa, m, ps, o))
         return r.choice([lambda: ds.mask, lambda: ds.data.mask, lambda: ds.noise_map.mask, lambda: ds.grids.uniform.mask])()
     if prov == "derived_edge":      # only when every unmasked pixel is an edge pixel (else the array differs: fresh is used)
         fm = fresh_mask(aa, m, ps, o)
@@ -217,6 +269,12 @@ def mk_grid(aa, mask):
     elif k == 5: g = g * 1.0
     elif k == 6: g = g.with_new_array(np.array(g).copy())
     elif k == 7: g = aa.Grid2D(values=np.array(g), mask=mask).native.slim
+    elif k == 8 and all(F(float(np.float32(v))) == F(float(v)) for v in np.array(g).ravel()):      # float32-typed values (exactly the same numbers)
+        g = aa.Grid2D(values=np.array(g.native, dtype=np.float32), mask=mask)
+    elif k == 9: g = aa.Grid2D(values=[[float(p[0]), float(p[1])] for p in np.array(g)], mask=mask)      # nested Python lists
+    elif k == 10: g = user_class(aa, "Grid2D")(values=np.array(g.native), mask=mask)                       # a user subclass
+    elif k == 11 and all(float(v).is_integer() for v in np.array(g).ravel()):                           # integer-typed coordinates
+        g = aa.Grid2D(values=np.array(g.native).astype(int), mask=mask)
     CTX["args"].append((g, np.array(g).copy(), mask_fp(g.mask)))
     if CTX["memo"] is not None: CTX["memo"][key] = g
     return g
@@ -231,6 +289,11 @@ def mk_array(aa, vals2d, mask):
     elif k == 4: a = a.native.slim
     elif k == 5: a = aa.Array2D(values=np.array(a), mask=mask)
     elif k == 6: a = (a + 1.0) - 1.0
+    elif k == 7: a = aa.Array2D(values=np.array(vals2d).astype(int), mask=mask)            # integer-typed values (all generated values are integers)
+    elif k == 8: a = aa.Array2D(values=np.array(vals2d, dtype=np.float32), mask=mask)
+    elif k == 9: a = aa.Array2D(values=[[float(v) for v in row] for row in np.array(vals2d)], mask=mask)
+    elif k == 10: a = aa.Kernel2D(values=np.array(vals2d, dtype=float), mask=mask)         # a library subclass of Array2D
+    elif k == 11: a = user_class(aa, "Array2D")(values=np.array(vals2d, dtype=float), mask=mask)
     CTX["args"].append((a, np.array(a).copy(), mask_fp(a.mask)))
     return a
 
@@ -287,10 +350,12 @@ def rand_frame(rng, zero_origin=False, scaled=True, same_exp=False):
     if scaled and rng.random() < 0.3:
         ey = rng.choice(SCALE_EXPS); ex = ey if (same_exp or rng.random() < 0.6) else rng.choice(SCALE_EXPS)
         ps = (ps[0] * F(2) ** ey, ps[1] * F(2) ** ex)
-    o = (ps[0] * F(rng.randint(-12, 12), 4), ps[1] * F(rng.randint(-12, 12), 4))
+    far = rng.choice([12, 12, 12, 12, 12, 12, 12, 12, 400, 4096])     # (h) origins / translations far outside the frame (up to 1000 pixels)
+    o = (ps[0] * F(rng.randint(-far, far), 4), ps[1] * F(rng.randint(-far, far), 4))
     if zero_origin or rng.random() < 0.15: o = (F(0), F(0))
     while True:
-        d = (ps[0] * F(rng.randint(-12, 12), 4), ps[1] * F(rng.randint(-12, 12), 4))
+        fd = rng.choice([12, 12, 12, far])
+        d = (ps[0] * F(rng.randint(-fd, fd), 4), ps[1] * F(rng.randint(-fd, fd), 4))
         if rng.random() < 0.2: d = (d[0], F(0)) if rng.random() < 0.5 else (F(0), d[1])
         if d != (0, 0) and padd(o, d) != (0, 0): break
     return ps, o, d
@@ -299,7 +364,8 @@ STYLES = ["random", "random", "random", "single", "ring", "full", "two", "interi
 GRID_OPS = ["from_mask", "dg_all_false", "dg_unmasked", "dg_edge", "dg_border", "blurring", "padded", "trimmed_array", "subtracted", "over", "sub_grid",
             "resized", "rescaled", "centre", "extent", "zoom_unmasked", "zoomed_around", "zoom_props", "radial", "overlay",
             "pixel_coords", "pixel_grids", "scaled_of_pixels", "rect_mapper",
-            "ds_apply_mask", "ds_noise_scaling", "ds_over_sampling", "ds_trimmed", "ds_simulate", "ds_s2n"]
+            "ds_apply_mask", "ds_noise_scaling", "ds_over_sampling", "ds_trimmed", "ds_simulate", "ds_s2n",
+            "ctor", "methods", "util", "one_d"]
 
 def gen_inputs(tier, rng):
     n = 750 if tier == "thorough" else 36
@@ -307,10 +373,12 @@ def gen_inputs(tier, rng):
         for op in GRID_OPS:
             H, W = rng.randint(1, 7), rng.randint(1, 8)
             if rng.random() < 0.15: W = H
+            if rng.random() < 0.06 and not op.startswith("ds_") and op not in ("rect_mapper", "rescaled"): H, W = rng.randint(9, 21), rng.randint(9, 20)      # (h) larger frames
             style = rng.choice(STYLES)
             # (the radial projection steps along x with the pixel scale of the longer axis: the two scales must be commensurable
             # for the sums to be exact in doubles, so both axes get the same power of two there)
             ps, o, d = rand_frame(rng, same_exp=(op == "radial"))
+            if op == "methods" and rng.random() < 0.25: H, W, style = rng.randint(3, 7), rng.randint(3, 8), "interior"
             if op in ("blurring",): H, W, style = rng.randint(3, 7), rng.randint(3, 8), "interior"
             if op == "rect_mapper" and rng.random() < 0.8: ps = (ps[0], ps[0]); o = (o[0], ps[0] * F(rng.randint(-12, 12), 4)); d = (d[0], ps[0] * F(rng.randint(-12, 12), 4))
             if op == "ds_s2n": H = max(H, 2)     # a one-row 2-D data set takes the function's Array1D branch (and raises): outside C12
@@ -325,7 +393,7 @@ def gen_inputs(tier, rng):
 
 # ------------------------------------------------------------------------------------------------ one row
 def one_run(aa, op, m, ps, o, dd, prm, route, seed, memo):
-    CTX.update(prov=route[0], gprov=route[1], aprov=route[2], rng=random.Random(seed), made=[], geoms=[], args=[], memo=memo)
+    CTX.update(prov=route[0], gprov=route[1], aprov=route[2], fkind=route[3], pkind=route[4], rng=random.Random(seed), made=[], geoms=[], args=[], memo=memo)
     res = OPS[op](aa, m, ps, o, dd, prm)
     if res is None: return None
     res["own_rel"] = list(res["rel"])
@@ -355,8 +423,9 @@ class pushed_config:
 def routes_for(inp):
     """how the structures reach the entry point in the run at o and in the run at o + d (independent choices)"""
     r = random.Random(inp["seed"] * 7 + 3)
-    def one(): return (r.choice(MASK_PROVS), r.choice([0, 0, 0, 1, 2, 3, 4, 5, 6, 7]), r.choice([0, 0, 0, 1, 2, 3, 4, 5, 6]))
-    rts = [one(), one()] if r.random() < 0.8 else [("fresh", 0, 0), ("fresh", 0, 0)]
+    def one(): return (r.choice(MASK_PROVS), r.choice([0, 0, 0, 1, 2, 3, 4, 5, 6, 7, 8, 9, 10, 11]), r.choice([0, 0, 0, 1, 2, 3, 4, 5, 6, 7, 8, 9, 10, 11]),
+                       r.choice(FRAME_KINDS), r.choice(POINT_KINDS))
+    rts = [one(), one()] if r.random() < 0.8 else [("fresh", 0, 0, "float", "float"), ("fresh", 0, 0, "float", "float")]
     if inp["op"] in PROPERTY_OPS and r.random() < 0.4:
         # entry points that are plain properties of the mask: in ONE of the two runs the object held another array when the property
         # was first read, and was then edited in place (a stale value shows as a broken translation law)
@@ -364,6 +433,7 @@ def routes_for(inp):
         rts[k] = (r.choice(["edited", "edited_all_false"]),) + rts[k][1:]
         if rts[1 - k][0].startswith("edited"): rts[1 - k] = ("fresh",) + rts[1 - k][1:]
     return rts
+POINT_KINDS = ["float"] * 4 + ["int", "np64", "list", "nparr", "npint", "f32"]
 PROPERTY_OPS = {"centre", "extent", "zoom_unmasked", "zoomed_around", "zoom_props", "overlay", "dg_unmasked", "dg_all_false", "dg_edge", "dg_border"}
 
 def run_case(inp):
@@ -374,11 +444,12 @@ def run_case(inp):
     rng = random.Random(inp["seed"])
     if op in SPECIAL:
         SHARED.clear()
-        CTX.update(prov="fresh", gprov=0, aprov=0, rng=None, made=[], geoms=[], args=[], memo=None)
+        CTX.update(prov="fresh", gprov=0, aprov=0, fkind="float", pkind="float", rng=None, made=[], geoms=[], args=[], memo=None)
         return SPECIAL[op](aa, inp, ps, o, d, rng)
     m = inp["m"]
     nun = sum(1 for r in m for b in r if not b)
     prm = PARAMS[op](rng, m, ps) if op in PARAMS else {}
+    prm["_d"] = d
     SHARED.clear()
     cfg = config_for(inp)
     with pushed_config(cfg):
@@ -387,6 +458,7 @@ def run_case(inp):
 def run_pair(aa, inp, op, m, ps, o, o2, d, prm, nun, cfg):
     ra, rb = routes_for(inp)
     memo_a, memo_b = {}, {}
+    dfp = defaults_fp(aa)
     a = one_run(aa, op, m, ps, o, (F(0), F(0)), prm, ra, inp["seed"] + 1, memo_a)      # at origin o: coordinate arguments get + 0
     b = one_run(aa, op, m, ps, o2, d, prm, rb, inp["seed"] + 2, memo_b)                # at origin o + d: coordinate arguments get + d
     if a is None or b is None:
@@ -402,11 +474,15 @@ def run_pair(aa, inp, op, m, ps, o, o2, d, prm, nun, cfg):
             if x2 is None or x2["own_rel"] != x["own_rel"] or x2["coq"] != x["coq"]:
                 ok, why = False, f"the entry point evaluated a second time on the same mask object (origin {S(oo)}) gave another result"
             elif x2["touched"]: ok, why = False, x2["touched"]
+    if ok:
+        ch = SHARED.changed() or defaults_changed(aa, dfp)
+        if ch: ok, why = False, ch
     assert len(a["coq"]) == len(b["coq"])
     cases = [f"(KPair {cpt(d)} {x} {y})" for x, y in zip(a["coq"], b["coq"])]
-    return {"coq": cases[0] if cases else None, "extra_coq": cases[1:], "py_ok": ok, "kind": op,
+    return {"coq": cases[0] if cases else None, "extra_coq": cases[1:], "py_ok": ok, "kind": op + (":inexact-tolerance" if a.get("tol") else ""),
             "nontrivial": nun >= 2, "out": {"at_o": a["show"], "at_o_plus_d": b["show"], "relation": why, "params": str(prm)[:300],
                                             "routes": str([ra, rb]), "config": str(cfg)},
+
             "detail": why}
 
 def relate(ra, rb, d):
@@ -425,6 +501,16 @@ def relate(ra, rb, d):
             if (va is None) != (vb is None) or (va is not None and padd(va, d) != vb): return False, f"point not translated by d: {va} -> {vb}"
         elif ta == "extent":
             if (va[0] + d[1], va[1] + d[1], va[2] + d[0], va[3] + d[0]) != vb: return False, f"extent not translated: {va} -> {vb}"
+        elif ta == "grid~":       # inexact quotients (non-dyadic): translated by d within 1e-9 relative to the pixel scale / magnitude
+            (tol, ga), (_, gb) = va, vb
+            if len(ga) != len(gb) or any(abs(q[i] - (p[i] + d[i])) > F(1, 10 ** 9) * max(tol[i], abs(q[i])) for p, q in zip(ga, gb) for i in (0, 1)):
+                return False, f"grid not translated by d (tolerance 1e-9): first points {jg(ga[:2])} -> {jg(gb[:2])} (lengths {len(ga)}, {len(gb)})"
+        elif ta == "inv~":
+            if len(va) != len(vb) or any(abs(x - y) > F(1, 10 ** 9) * max(abs(x), abs(y)) for x, y in zip(va, vb)):
+                return False, f"scale-valued result changed with the origin: {[str(v) for v in va]} -> {[str(v) for v in vb]}"
+        elif ta == "grid1":
+            ax = va[0]
+            if ax != vb[0] or [v + d[ax] for v in va[1]] != list(vb[1]): return False, f"1-D coordinates (axis {ax}) not translated by d[{ax}]: {[str(v) for v in va[1][:3]]} -> {[str(v) for v in vb[1][:3]]}"
         elif ta == "geom":
             if (va is None) != (vb is None) or (va is not None and geom_shift(va, d) != vb): return False, f"mask geometry not translated: {va} -> {vb}"
     return True, "ok"
@@ -505,12 +591,74 @@ def op_trimmed_array(aa, m, ps, o, dd, prm):
 def op_subtracted(aa, m, ps, o, dd, prm):
     mask = mk_mask(aa, m, ps, o)
     off = prm["off"]
-    sg = mk_grid(aa, mask).subtracted_from(offset=(fl(off[0]), fl(off[1])))
+    sg = mk_grid(aa, mask).subtracted_from(offset=kpt(off))
     g = grid_out(sg); ge = geom_of(sg.mask)
     return {"coq": [kgrid(f"(GSubtracted {cpt(off)})", m, ps, o, g), f"(KGeom (MSubtracted {cpt(off)}) {cM(m, ps, o)} (Some {cgeom(ge)}))"],
             "rel": [("grid", g), ("geom", ge)], "show": jg(g[:4])}
 
-SHARED = {}     # configuration objects shared by the run at origin o and the run at o + d of ONE case (reset per case)
+class Shared(dict):
+    """configuration objects shared by the run at origin o and the run at o + d of ONE case (reset per case); every object is
+    fingerprinted when it is created and must hold the same attribute values after all calls (g)"""
+    def __init__(self): super().__init__(); self.fps = {}
+    def setdefault(self, key, obj):
+        if key not in self: self[key] = obj; self.fps[key] = obj_fp(obj)
+        return self[key]
+    def clear(self): super().clear(); self.fps = {}
+    def changed(self):
+        for key, obj in self.items():
+            now = obj_fp(obj)
+            if not fp_kept(self.fps[key], now): return f"the shared configuration object '{key}' ({type(obj).__name__}) was modified by the calls"
+        return None
+
+def obj_fp(x, depth=0):
+    """structural fingerprint of an argument / configuration / default object: attribute values, arrays by content"""
+    if x is None or isinstance(x, (bool, int, float, str, complex, np.generic)): return repr(x)
+    if isinstance(x, (tuple, list)): return (type(x).__name__,) + tuple(obj_fp(v, depth + 1) for v in x)
+    if isinstance(x, dict): return ("dict",) + tuple(sorted((str(k), obj_fp(v, depth + 1)) for k, v in x.items()))
+    if isinstance(x, np.ndarray): return ("nd", str(x.dtype), x.shape, x.tobytes())
+    if isinstance(x, type) or callable(x) and not hasattr(x, "__dict__"): return repr(x)
+    d = getattr(x, "__dict__", None)
+    if d is None or depth > 4: return type(x).__name__
+    return ("obj", type(x).__name__, tuple(sorted((k, obj_fp(v, depth + 1)) for k, v in d.items() if k != "run_time_dict")))     # (profiling slot, reset by every call)
+def fp_kept(before, after):
+    """every attribute present BEFORE still has its value (attributes added later, e.g. lazily cached values, are allowed at the
+    top level only: what they hold shows in the results of the second evaluation)"""
+    if isinstance(before, tuple) and before and before[0] == "obj" and isinstance(after, tuple) and after and after[0] == "obj":
+        a = dict(after[2])
+        return before[1] == after[1] and all(k in a and a[k] == v for k, v in before[2])
+    return before == after
+
+DEFAULTS = []
+def default_objects(aa):
+    """the shared DEFAULT argument objects of the library's public callables (OverSamplingDataset(), Preloads(), SettingsInversion() ...)"""
+    if DEFAULTS: return DEFAULTS
+    import inspect, pkgutil, importlib, autoarray
+    def prim(v): return v is None or isinstance(v, (bool, int, float, str, type)) or (isinstance(v, tuple) and all(prim(x) for x in v))
+    seen = set()
+    for mi in pkgutil.walk_packages(autoarray.__path__, "autoarray."):
+        if ".plot" in mi.name or "fixtures" in mi.name or "mock" in mi.name: continue
+        try: mod = importlib.import_module(mi.name)
+        except Exception: continue
+        for name, obj in list(vars(mod).items()):
+            fs = []
+            if inspect.isfunction(obj): fs = [(name, obj)]
+            elif inspect.isclass(obj) and obj.__module__ == mi.name:
+                fs = [(name + "." + n, f) for n, f in vars(obj).items() if inspect.isfunction(f) or isinstance(f, (classmethod, staticmethod))]
+            for n, f in fs:
+                f = getattr(f, "__func__", f)
+                try: sig = inspect.signature(f)
+                except Exception: continue
+                for prm_ in sig.parameters.values():
+                    if prm_.default is not inspect._empty and not prim(prm_.default) and id(prm_.default) not in seen:
+                        seen.add(id(prm_.default)); DEFAULTS.append((mi.name + ":" + n + ":" + prm_.name, prm_.default))
+    return DEFAULTS
+def defaults_fp(aa): return [obj_fp(v) for _, v in default_objects(aa)]
+def defaults_changed(aa, before):
+    for (name, v), b in zip(default_objects(aa), before):
+        if obj_fp(v) != b: return f"the shared default argument object {name} was modified by the calls"
+    return None
+
+SHARED = Shared()
 def op_over(entry):
     def f(aa, m, ps, o, dd, prm):
         mask = mk_mask(aa, m, ps, o)
@@ -605,9 +753,9 @@ def op_radial(aa, m, ps, o, dd, prm):
     mask = mk_mask(aa, m, ps, o)
     c = padd(padd(o, prm["c_rel"]), (0, 0))
     grid = mk_grid(aa, mask)
-    g = grid_out(grid.grid_2d_radial_projected_from(centre=(fl(c[0]), fl(c[1])), angle=0.0, shape_slim=prm["shape_slim"],
+    g = grid_out(grid.grid_2d_radial_projected_from(centre=kpt(c), angle=0.0, shape_slim=prm["shape_slim"],
                                                     remove_projected_centre=prm["remove"]))
-    n = int(grid.grid_2d_radial_projected_shape_slim_from(centre=(fl(c[0]), fl(c[1]))))
+    n = int(grid.grid_2d_radial_projected_shape_slim_from(centre=kpt(c)))
     from autoconf import conf
     rm = bool(conf.instance["general"]["grid"]["remove_projected_centre"]) if prm["remove"] is None else prm["remove"]
     return {"coq": [kgrid(f"(GRadial {cpt(c)} {cz(prm['shape_slim'])} {cbool(rm)})", m, ps, o, g)],
@@ -628,9 +776,29 @@ def overlay_exact(m, ps, o, sy, sx):
             if not dyadic(coord) or not fdiv_exact(coord, p): return False
     return True
 
+def overlay_margin(m, ps, sy, sx):
+    """distance (in pixels) of the overlay centres from the nearest pixel boundary of the mask: the only discontinuous decision"""
+    H, W = len(m), len(m[0]); worst = F(1)
+    ys = [y for y in range(H) for x in range(W) if not m[y][x]]; xs = [x for y in range(H) for x in range(W) if not m[y][x]]
+    for idx, n, s in ((ys, H, sy), (xs, W, sx)):
+        span = F(max(idx) - min(idx) + 1); p2 = span / s
+        cen = F(max(idx) + min(idx), 2)                      # in pixel units, from pixel 0
+        for k in range(s):
+            q = cen + (k - F(s - 1, 2)) * p2 + F(1, 2)       # float pixel position of the overlay centre
+            worst = min(worst, abs(q - round(q)))
+    return worst
+
 def op_overlay(aa, m, ps, o, dd, prm):
     sy, sx = prm["shape"]
-    if not overlay_exact(m, ps, o, sy, sx): return None
+    oa = (o[0] - dd[0], o[1] - dd[1]); ob = padd(oa, prm["_d"])
+    if not (overlay_exact(m, ps, oa, sy, sx) and overlay_exact(m, ps, ob, sy, sx)):
+        # (h) the model comparison is not exact for this input: the PROPERTY is still evaluated on the implementation's output, with a
+        # tolerance, provided the only discontinuous decision (which mask pixel holds an overlay centre) is taken at a margin
+        if overlay_margin(m, ps, sy, sx) < F(1, 10 ** 6): return None
+        mask = mk_mask(aa, m, ps, o)
+        try: g = grid_out(SHARED.setdefault("overlay", aa.image_mesh.Overlay(shape=(sy, sx))).image_plane_mesh_grid_from(mask=mask))
+        except IndexError: g = None
+        return {"coq": [], "rel": [("grid~", (ps, g))] if g is not None else [("inv", "IndexError")], "show": "inexact: " + str(jg(g[:4]) if g else "IndexError"), "tol": True}
     mask = mk_mask(aa, m, ps, o)
     try:
         # ONE Overlay object serves the mask at o and the mask at o + d (and is evaluated again afterwards)
@@ -640,6 +808,20 @@ def op_overlay(aa, m, ps, o, dd, prm):
     return {"coq": [kgrid(f"(GOverlay {cz(sy)} {cz(sx)})", m, ps, o, g)], "rel": [("grid", None if isinstance(g, str) else g)],
             "show": g if isinstance(g, str) else jg(g[:4])}
 
+def kpt(p):
+    """a (y, x) point argument in the point kind of this run"""
+    return kpair(p, CTX.get("pkind", "float"))
+def point_grid(aa, pts):
+    """the points as a Grid2D with its OWN frame (shape, pixel scales, origin unrelated to the mask's) and value kind"""
+    r = CTX["rng"] or random.Random(0); k = CTX.get("pkind", "float"); n = len(pts)
+    shape = r.choice([(1, n), (n, 1)] + ([(2, n // 2)] if n % 2 == 0 and n > 2 else []))
+    vals = [(fl(p[0]), fl(p[1])) for p in pts]
+    if k == "nparr": vals = np.array(vals)
+    elif k == "f32" and all(F(float(np.float32(v))) == F(v) for p in pts for v in p): vals = np.array(vals, dtype=np.float32)
+    elif k in ("int", "npint") and all(F(v).denominator == 1 for p in pts for v in p): vals = np.array(vals).astype(int)
+    elif k == "list": vals = [[a, b] for a, b in vals]
+    frame = r.choice([dict(pixel_scales=1.0), dict(pixel_scales=(0.5, 2.0), origin=(7.0, -3.0)), dict(pixel_scales=2.0, origin=(0.25, 0.0))])
+    return aa.Grid2D.no_mask(values=vals, shape_native=shape, **frame)
 def pts_for(rng, m, ps, n=6):
     """points relative to the origin, on the ps/8 lattice, inside and a little outside the frame"""
     H, W = len(m), len(m[0])
@@ -648,9 +830,9 @@ def pts_for(rng, m, ps, n=6):
 def op_pixel_coords(aa, m, ps, o, dd, prm):
     mask = mk_mask(aa, m, ps, o)
     pts = [padd(p, o) for p in prm["pts"]]
-    out = [tuple(int(v) for v in mask.geometry.pixel_coordinates_2d_from(scaled_coordinates_2d=(fl(p[0]), fl(p[1])))) for p in pts]
-    back = [tuple(fr(v) for v in mask.geometry.scaled_coordinates_2d_from(pixel_coordinates_2d=(fl(q[0]), fl(q[1])))) for q in prm["pix"]]
-    at_c = [tuple(fr(v) for v in mask.geometry.scaled_coordinate_2d_to_scaled_at_pixel_centre_from(scaled_coordinate_2d=(fl(p[0]), fl(p[1])))) for p in pts]
+    out = [tuple(int(v) for v in mask.geometry.pixel_coordinates_2d_from(scaled_coordinates_2d=kpt(p))) for p in pts]
+    back = [tuple(fr(v) for v in mask.geometry.scaled_coordinates_2d_from(pixel_coordinates_2d=kpt(q))) for q in prm["pix"]]
+    at_c = [tuple(fr(v) for v in mask.geometry.scaled_coordinate_2d_to_scaled_at_pixel_centre_from(scaled_coordinate_2d=kpt(p))) for p in pts]
     return {"coq": [f"(KPixelCoords {cM(m, ps, o)} {cgrid(pts)} {clist([czz(q) for q in out])})",
                     kgrid(f"(GScaledOfPixelCentres {cgrid(prm['pix'])})", m, ps, o, back)],
             "rel": [("inv", out), ("grid", back), ("grid", at_c)], "show": str(out)}
@@ -658,7 +840,8 @@ def op_pixel_coords(aa, m, ps, o, dd, prm):
 def op_pixel_grids(aa, m, ps, o, dd, prm):
     mask = mk_mask(aa, m, ps, o)
     pts = [padd(p, o) for p in prm["pts"]]
-    g = aa.Grid2D.no_mask(values=[(fl(p[0]), fl(p[1])) for p in pts], shape_native=(1, len(pts)), pixel_scales=1.0)
+    g = point_grid(aa, pts)
+    CTX["args"].append((g, np.array(g).copy(), mask_fp(g.mask)))
     geo = mask.geometry
     fpix = grid_out(geo.grid_pixels_2d_from(grid_scaled_2d=g))
     cen = [tuple(int(v) for v in r) for r in np.asarray(geo.grid_pixel_centres_2d_from(grid_scaled_2d=g))]
@@ -670,23 +853,41 @@ def op_pixel_grids(aa, m, ps, o, dd, prm):
 
 def op_scaled_of_pixels(aa, m, ps, o, dd, prm):
     mask = mk_mask(aa, m, ps, o)
-    g = aa.Grid2D.no_mask(values=[(fl(p[0]), fl(p[1])) for p in prm["pix"]], shape_native=(1, len(prm["pix"])), pixel_scales=1.0)
+    g = point_grid(aa, prm["pix"])
     out = grid_out(mask.geometry.grid_scaled_2d_from(grid_pixels_2d=g))
     return {"coq": [kgrid(f"(GScaledOfPixels {cgrid(prm['pix'])})", m, ps, o, out)], "rel": [("grid", out)], "show": jg(out[:4])}
 
 def op_rect_mapper(aa, m, ps, o, dd, prm):
     """MapperRectangular on the (translated) unmasked grid of the mask, mesh = Mesh2DRectangular.overlay_grid"""
     sy, sx = prm["shape"]; buf = prm["buffer"]
+    via_mesh = prm.get("via_mesh")
+    if via_mesh: sy, sx = prm["mesh_shape"]                          # (mesh.Rectangular wants at least 3 x 3; odd shapes: fewer exact ties)
+    if via_mesh: buf = F(1, 10 ** 8)          # mesh.Rectangular.mesh_grid_from uses overlay_grid's default buffer
     mask = mk_mask(aa, m, ps, o)
     grid = mk_grid(aa, mask)
     gl = grid_out(grid)
-    for vs, s in (([p[0] for p in gl], sy), ([p[1] for p in gl], sx)):
+    oa = (o[0] - dd[0], o[1] - dd[1]); ob = padd(oa, prm["_d"])
+    exact = not via_mesh; margin = F(1)
+    for ax, s in ((0, sy), (1, sx)):
+        vs = [p[ax] for p in gl]
         lo, hi = min(vs), max(vs)
         p2 = (hi - lo + 2 * buf) / s
-        if not dyadic(p2) or not fdiv_exact((hi + lo) / 2, p2): return None
-        if any(not fdiv_exact(v, p2) for v in vs): return None
-    mesh = aa.Mesh2DRectangular.overlay_grid(shape_native=(sy, sx), grid=grid, buffer=fl(buf))
-    mg = aa.MapperGrids(mask=mask, source_plane_data_grid=grid, source_plane_mesh_grid=mesh)
+        for oo in (oa, ob):      # exactness must hold at both origins (the values at the other origin are these + or - d)
+            sh = oo[ax] - o[ax]
+            if not dyadic(p2) or not fdiv_exact((hi + lo) / 2 + sh, p2) or any(not fdiv_exact(v + sh, p2) for v in vs): exact = False
+            if not (dyadic(hi + sh + buf, 48) and dyadic(lo + sh - buf, 48) and dyadic(hi + lo + 2 * sh, 48)): exact = False     # y_max + buffer, y_min - buffer, their sum
+        if hi == lo: margin = F(0)       # a one-row / one-column grid: the mesh spans 2 * buffer only (cancellation): exact path only
+        for v in vs:
+            t = (v - lo + buf) / p2; margin = min(margin, abs(t - round(t)))
+    if not exact and margin < F(1, 10 ** 9): return None        # a data point on a mesh-pixel boundary: the index table may flip by rounding
+    if via_mesh:
+        # the public route: mesh.Rectangular(...).mapper_grids_from with its shared default Preloads() (fingerprinted)
+        mo = SHARED.setdefault("rect_mesh", aa.mesh.Rectangular(shape=(sy, sx)))
+        mg = mo.mapper_grids_from(mask=mask, source_plane_data_grid=grid, border_relocator=None)
+        mesh = mg.source_plane_mesh_grid
+    else:
+        mesh = aa.Mesh2DRectangular.overlay_grid(shape_native=(sy, sx), grid=grid, buffer=fl(buf))
+        mg = aa.MapperGrids(mask=mask, source_plane_data_grid=grid, source_plane_mesh_grid=mesh)
     mapper = aa.Mapper(mapper_grids=mg, over_sampler=aa.OverSamplerUniform(mask=mask, sub_size=1), regularization=None)
     maps = [int(v) for v in np.asarray(mapper.pix_indexes_for_sub_slim_index).ravel()]
     sizes = [int(v) for v in np.asarray(mapper.pix_sizes_for_sub_slim_index).ravel()]
@@ -695,6 +896,10 @@ def op_rect_mapper(aa, m, ps, o, dd, prm):
     mps_ = (fr(mesh.pixel_scales[0]), fr(mesh.pixel_scales[1])); morg = (fr(mesh.origin[0]), fr(mesh.origin[1]))
     meshg = grid_out(mesh)
     nb = [[int(v) for v in r] for r in np.asarray(mesh.neighbors)]
+    if not exact:
+        mps_t = tuple(abs(v) for v in mps_)
+        return {"coq": [], "rel": [("inv", maps), ("inv", sizes), ("inv", wts), ("inv", mm), ("grid~", (mps_t, [morg])), ("grid~", (mps_t, meshg)), ("inv", nb), ("inv~", list(mps_))],
+                "show": "inexact: " + str(maps), "tol": True}
     return {"coq": [f"(KRect {cz(sy)} {cz(sx)} {cgrid(gl)} {cq(buf)} {cpt(mps_)} {cpt(morg)} {cgrid(meshg)} {clist([cz(i) for i in maps])})"],
             "rel": [("inv", maps), ("inv", sizes), ("inv", wts), ("inv", mm), ("inv", mps_), ("point", morg), ("grid", meshg), ("inv", nb)],
             "show": str(maps)}
@@ -705,7 +910,7 @@ def mk_imaging(aa, m, ps, o, rng_vals, psf=None, pre=0):
     that frame (its data arrays come out of arithmetic / native storage, or the dataset itself out of apply_mask with an all-False
     mask, apply_over_sampling, a 1x1 trim), after its cached grids were read, or after it served another mask first"""
     H, W = len(m), len(m[0])
-    kw = dict(pixel_scales=(fl(ps[0]), fl(ps[1])), origin=(fl(o[0]), fl(o[1])))
+    kw = fkw(ps, o)
     vals = np.array(rng_vals, dtype=float).reshape(H, W)
     if pre == 1:
         data = aa.Array2D.no_mask(values=vals / 2.0, **kw) * 2.0
@@ -751,8 +956,7 @@ def op_ds(which):
         mask = mk_mask(aa, m, ps, o)
         D = cM(full, ps, o)
         if which == "simulate":
-            image = aa.Array2D.no_mask(values=np.array(prm["vals"], dtype=float).reshape(H, W), pixel_scales=(fl(ps[0]), fl(ps[1])),
-                                       origin=(fl(o[0]), fl(o[1])))
+            image = aa.Array2D.no_mask(values=np.array(prm["vals"], dtype=float).reshape(H, W), **fkw(ps, o))
             if CTX["aprov"] in (1, 6): image = (image + 1.0) - 1.0
             elif CTX["aprov"] in (2, 3): image = image.native
             CTX["args"].append((image, np.array(image).copy(), mask_fp(image.mask)))
@@ -797,6 +1001,240 @@ def op_ds(which):
         return {"coq": coq, "rel": rel, "show": str(gd)}
     return f
 
+# ---- sibling entry points: constructor classmethods with an explicit origin, methods that rebuild a frame, the util layer on plain
+# arrays, sibling classes (Kernel2D, VectorYX2D, Interferometer) and the 1-D variants
+def exp_grid(H, W, ps, o):
+    return [(o[0] + (F(H - 1, 2) - y) * ps[0], o[1] + (x - F(W - 1, 2)) * ps[1]) for y in range(H) for x in range(W)]
+def mlist(mask): return [[bool(b) for b in r] for r in np.array(mask)]
+def seq_kind(vals, kind):
+    """a sequence of numbers in the value kind [kind] (all values exactly representable)"""
+    vals = [float(v) for v in vals]
+    if kind in ("int", "npint") and all(v.is_integer() for v in vals): return np.array(vals).astype(int) if kind == "npint" else [int(v) for v in vals]
+    if kind == "f32" and all(F(float(np.float32(v))) == F(v) for v in vals): return np.array(vals, dtype=np.float32)
+    if kind in ("list", "int"): return vals
+    return np.array(vals)
+
+CTOR_KINDS = ["grid_uniform", "grid_no_mask", "grid_from_yx_1d", "grid_from_yx_2d", "grid_bounding_box", "array_no_mask", "array_full",
+              "array_ones", "array_zeros", "mask_all_false", "mask_from_pixel_coordinates", "kernel_no_mask", "kernel_ones", "kernel_full",
+              "kernel_zeros", "vector_no_mask", "vector_full", "vector_ones", "vector_zeros"]
+def multi(one):
+    """several variants per case (the structures of the run are shared by them)"""
+    def f(aa, m, ps, o, dd, prm):
+        coq, rel, show = [], [], []
+        for which in prm["which"]:
+            r = one(aa, m, ps, o, dd, prm, which)
+            coq += r["coq"]; rel += [("inv", which)] + r["rel"]; show.append(r["show"])
+        return {"coq": coq, "rel": rel, "show": str(show)}
+    return f
+
+def ctor_one(aa, m, ps, o, dd, prm, which):
+    H, W = len(m), len(m[0]); kw = fkw(ps, o); k = CTX["pkind"]
+    full = [[False] * W for _ in range(H)]
+    eg = exp_grid(H, W, ps, o); ys = [p[0] for p in eg]; xs = [p[1] for p in eg]
+    vals = np.arange(1.0, H * W + 1.0).reshape(H, W)
+    rel = []; gop = "GAllFalse"; mm = full
+    if which == "grid_uniform":
+        st = aa.Grid2D.uniform(shape_native=(H, W), **kw); g = grid_out(st); rel.append(("grid", grid_out(st.mask.derive_grid.all_false)))
+    elif which == "grid_no_mask":
+        nat = np.array([[fl(p[0]), fl(p[1])] for p in eg]).reshape(H, W, 2)
+        st = aa.Grid2D.no_mask(values=nat.tolist() if k == "list" else nat, **kw) if prm["native"] else \
+             aa.Grid2D.no_mask(values=nat.reshape(-1, 2), shape_native=(H, W), **kw)
+        g = grid_out(st.mask.derive_grid.all_false); rel.append(("grid", grid_out(st)))
+    elif which == "grid_from_yx_1d":
+        st = aa.Grid2D.from_yx_1d(y=seq_kind(ys, k), x=seq_kind(xs, k), shape_native=(H, W), **kw)
+        g = grid_out(st.mask.derive_grid.all_false); rel.append(("grid", grid_out(st)))
+    elif which == "grid_from_yx_2d":
+        y2 = np.array([fl(v) for v in ys]).reshape(H, W); x2 = np.array([fl(v) for v in xs]).reshape(H, W)
+        st = aa.Grid2D.from_yx_2d(y=y2.tolist() if k == "list" else y2, x=x2.tolist() if k == "list" else x2, **kw)
+        g = grid_out(st.mask.derive_grid.all_false); rel.append(("grid", grid_out(st)))
+    elif which == "grid_bounding_box":
+        buf = prm["buffer"] and H >= 2 and W >= 2
+        hy, hx = ps[0] * F(H - 1 if buf else H, 2), ps[1] * F(W - 1 if buf else W, 2)
+        bb = seq_kind([o[0] - hy, o[0] + hy, o[1] - hx, o[1] + hx], k if k != "f32" else "float")
+        st = aa.Grid2D.bounding_box(bounding_box=bb, shape_native=(H, W), buffer_around_corners=bool(buf)); g = grid_out(st)
+    elif which.startswith("array_"):
+        st = {"array_no_mask": lambda: aa.Array2D.no_mask(values=vals.tolist() if k == "list" else vals, **kw) if prm["native"] else
+                                       aa.Array2D.no_mask(values=vals.ravel(), shape_native=(H, W), **kw),
+              "array_full": lambda: aa.Array2D.full(fill_value=2.0, shape_native=(H, W), **kw),
+              "array_ones": lambda: aa.Array2D.ones(shape_native=(H, W), **kw),
+              "array_zeros": lambda: aa.Array2D.zeros(shape_native=(H, W), **kw)}[which]()
+        g = grid_out(st.unmasked_grid); rel += [("extent", tuple(fr(v) for v in st.geometry.extent)), ("point", (fr(st.origin[0]), fr(st.origin[1])))]
+    elif which == "mask_all_false":
+        st = aa.Mask2D.all_false(shape_native=(H, W), invert=False, **kw); g = grid_out(st.derive_grid.unmasked)
+    elif which == "mask_from_pixel_coordinates":
+        co = [[y, x] for y in range(H) for x in range(W) if not m[y][x]]
+        st = aa.Mask2D.from_pixel_coordinates(shape_native=(H, W), pixel_coordinates=co if k != "nparr" else [list(np.array(c)) for c in co], **kw)
+        g = grid_out(aa.Grid2D.from_mask(mask=st)); gop = "GFromMask"; mm = m; rel.append(("inv", mlist(st)))
+    elif which.startswith("kernel_"):
+        st = {"kernel_no_mask": lambda: aa.Kernel2D.no_mask(values=vals, **kw),
+              "kernel_ones": lambda: aa.Kernel2D.ones(shape_native=(H, W), **kw),
+              "kernel_full": lambda: aa.Kernel2D.full(fill_value=3.0, shape_native=(H, W), **kw),
+              "kernel_zeros": lambda: aa.Kernel2D.zeros(shape_native=(H, W), **kw)}[which]()
+        g = grid_out(st.unmasked_grid); rel.append(("extent", tuple(fr(v) for v in st.geometry.extent)))
+    else:
+        v2 = np.stack([vals, -vals], axis=-1)
+        st = {"vector_no_mask": lambda: aa.VectorYX2D.no_mask(values=v2, **kw) if prm["native"] else
+                                        aa.VectorYX2D.no_mask(values=v2.reshape(-1, 2), shape_native=(H, W), **kw),
+              "vector_full": lambda: aa.VectorYX2D.full(fill_value=2.0, shape_native=(H, W), **kw),
+              "vector_ones": lambda: aa.VectorYX2D.ones(shape_native=(H, W), **kw),
+              "vector_zeros": lambda: aa.VectorYX2D.zeros(shape_native=(H, W), **kw)}[which]()
+        g = grid_out(st.grid); rel += [("inv", [float(v) for v in np.array(st.magnitudes).ravel()]), ("geom", geom_of(st.y.mask))]
+    msk = st if isinstance(st, aa.Mask2D) else st.mask
+    ge = geom_of(msk)
+    return {"coq": [kgrid(gop, mm, ps, o, g)], "rel": [("grid", g), ("geom", ge)] + rel, "show": which + " " + str(ge)}
+
+METHOD_KINDS = ["arr_resized", "arr_padded", "arr_trimmed", "arr_apply_mask", "grid_deflection", "grid_removed", "grid_extent",
+                "grid_blurring_kernel", "kernel_convolved", "derive_masks", "vector_on_mask"]
+def methods_one(aa, m, ps, o, dd, prm, which):
+    H, W = len(m), len(m[0])
+    mask = mk_mask(aa, m, ps, o)
+    coq = []; rel = []
+    def derived(rm, tag=True):
+        """a mask produced by the call: its boolean array must not change with the origin, its frame and grid must translate"""
+        rml = mlist(rm); g = grid_out(rm.derive_grid.unmasked)
+        coq.append(kgrid(f"(GDerived {cmask(rml)})", m, ps, o, g)); rel.extend([("grid", g), ("inv", rml), ("geom", geom_of(rm))])
+    vals = np.arange(1.0, H * W + 1.0).reshape(H, W)
+    if which in ("arr_resized", "arr_padded", "arr_trimmed"):
+        arr = mk_array(aa, vals, mask)
+        if which == "arr_resized": out = arr.resized_from(new_shape=prm["shape"], mask_pad_value=prm["pad"])
+        elif which == "arr_padded": out = arr.padded_before_convolution_from(kernel_shape=prm["k"], mask_pad_value=prm["pad"])
+        else: out = arr.trimmed_after_convolution_from(kernel_shape=(min(prm["k"][0], H if H % 2 else max(H - 1, 1)), min(prm["k"][1], W if W % 2 else max(W - 1, 1))))
+        derived(out.mask); rel.append(("inv", [float(v) for v in np.array(out.native).ravel()]))
+    elif which == "arr_apply_mask":
+        full = aa.Mask2D.all_false(shape_native=(H, W), **fkw(ps, o))
+        out = mk_array(aa, vals, full).apply_mask(mask=mask)
+        derived(out.mask); rel.append(("inv", [float(v) for v in np.array(out.native).ravel()]))
+    elif which == "grid_deflection":
+        grid = mk_grid(aa, mask)
+        defl = aa.Grid2D(values=np.array([[fl(ps[0] * F(a, 4)), fl(ps[1] * F(b, 4))] for a, b in prm["defl"][:len(grid)]]), mask=mask)
+        out = grid.grid_2d_via_deflection_grid_from(deflection_grid=defl)
+        derived(out.mask); rel.append(("grid", grid_out(out)))
+    elif which == "grid_removed":
+        grid = mk_grid(aa, mask)
+        cs = [kpt(padd(c, o)) for c in prm["coords"]]
+        out = grid.grid_with_coordinates_within_distance_removed_from(coordinates=cs if len(cs) > 1 or prm["aslist"] else (cs[0] if not isinstance(cs[0], list) else tuple(cs[0])), distance=fl(prm["dist"]))
+        derived(out.mask); rel.append(("grid", grid_out(out)))
+    elif which == "grid_extent":
+        grid = mk_grid(aa, mask); b = prm["buf"]
+        rel += [("point", tuple(fr(v) for v in grid.scaled_minima)), ("point", tuple(fr(v) for v in grid.scaled_maxima)),
+                ("extent", tuple(fr(v) for v in grid.extent_with_buffer_from(buffer=fl(b)))),
+                ("inv", tuple(fr(v) for v in grid.shape_native_scaled_interior)), ("point", tuple(fr(v) for v in grid.geometry.central_scaled_coordinates) if False else (fr(grid.origin[0]), fr(grid.origin[1])))]
+        coq.append(kgrid("GFromMask", m, ps, o, grid_out(grid)))
+    elif which == "grid_blurring_kernel":
+        try: bm = mask.derive_mask.blurring_from(kernel_shape_native=prm["k3"])
+        except Exception as e: return {"coq": [], "rel": [("inv", exn_name(e))], "show": exn_name(e)}
+        g = grid_out(mk_grid(aa, mask).blurring_grid_via_kernel_shape_from(kernel_shape_native=prm["k3"]))
+        coq.append(kgrid(f"(GDerived {cmask(mlist(bm))})", m, ps, o, g)); rel += [("grid", g), ("inv", mlist(bm))]
+    elif which == "kernel_convolved":
+        psf = SHARED.setdefault("kpsf", aa.Kernel2D.ones(shape_native=(3, 3), pixel_scales=(fl(ps[0]), fl(ps[1]))))
+        arr = mk_array(aa, vals, mask)
+        out = psf.convolved_array_from(array=arr)
+        derived(out.mask); rel.append(("inv", [float(v) for v in np.array(out.native).ravel()]))
+        full = aa.Mask2D.all_false(shape_native=(H, W), **fkw(ps, o))
+        out2 = psf.convolved_array_with_mask_from(array=aa.Array2D(values=vals, mask=full).native, mask=mask)
+        derived(out2.mask); rel.append(("inv", [float(v) for v in np.array(out2.native).ravel()]))
+    elif which == "derive_masks":
+        dm = mask.derive_mask
+        for rm in (dm.all_false, dm.edge, dm.border, dm.edge_buffed): derived(rm)
+    elif which == "vector_on_mask":
+        nun = nun_of(m); grid = mk_grid(aa, mask)
+        v = aa.VectorYX2D(values=np.array([[float(i), float(-i)] for i in range(nun)]), grid=grid, mask=mask)
+        rel += [("grid", grid_out(v.grid)), ("geom", geom_of(v.mask)), ("geom", geom_of(v.native.mask)), ("geom", geom_of(v.magnitudes.mask)),
+                ("grid", grid_out(aa.VectorYX2D.from_mask(values=np.array(v), mask=mask).grid))]
+        coq.append(kgrid("GFromMask", m, ps, o, grid_out(v.grid)))
+    return {"coq": coq, "rel": rel, "show": which}
+
+def op_util(aa, m, ps, o, dd, prm):
+    """the util layer called directly on plain lists / ndarrays of every kind (no structure objects)"""
+    from autoarray.geometry import geometry_util as gu
+    from autoarray.structures.grids import grid_2d_util as g2
+    H, W = len(m), len(m[0]); kw = fkw(ps, o); k = CTX["pkind"]
+    M = cM(m, ps, o); full = [[False] * W for _ in range(H)]
+    pts = [padd(p, o) for p in prm["pts"]]
+    def arr(points):
+        a = np.array([[fl(p[0]), fl(p[1])] for p in points])
+        if k == "f32" and all(F(float(np.float32(v))) == F(float(v)) for v in a.ravel()): return a.astype(np.float32)
+        if k in ("int", "npint") and all(float(v).is_integer() for v in a.ravel()): return a.astype(int)
+        return a
+    shape = (H, W) if k != "list" else [H, W]
+    okw = dict(shape_native=shape, pixel_scales=kw["pixel_scales"], origin=kw["origin"])
+    pc = [tuple(int(v) for v in gu.pixel_coordinates_2d_from(scaled_coordinates_2d=kpt(p), shape_native=shape, pixel_scales=kw["pixel_scales"],
+                                                             origins=kw["origin"])) for p in pts]
+    back = [tuple(fr(v) for v in gu.scaled_coordinates_2d_from(pixel_coordinates_2d=kpt(q), shape_native=shape, pixel_scales=kw["pixel_scales"],
+                                                               origins=kw["origin"])) for q in prm["pix"]]
+    fpix = grid_out(gu.grid_pixels_2d_slim_from(grid_scaled_2d_slim=arr(pts), **okw))
+    cen = [tuple(int(v) for v in r) for r in np.asarray(gu.grid_pixel_centres_2d_slim_from(grid_scaled_2d_slim=arr(pts), **okw))]
+    idx = [int(v) for v in np.asarray(gu.grid_pixel_indexes_2d_slim_from(grid_scaled_2d_slim=arr(pts), **okw))]
+    sc = grid_out(gu.grid_scaled_2d_slim_from(grid_pixels_2d_slim=arr(prm["pix"]), **okw))
+    n = len(pts); nat = arr(pts).reshape((2, n // 2, 2) if n % 2 == 0 else (1, n, 2))
+    cen_nat = [tuple(int(v) for v in r) for r in np.asarray(gu.grid_pixel_centres_2d_from(grid_scaled_2d=nat, **okw)).reshape(-1, 2)]
+    mb = np.array(m, dtype=bool)
+    gs = grid_out(g2.grid_2d_slim_via_mask_from(mask_2d=mb if k != "npint" else mb.astype(int), pixel_scales=kw["pixel_scales"], origin=kw["origin"]))
+    gn = np.asarray(g2.grid_2d_via_mask_from(mask_2d=mb, pixel_scales=kw["pixel_scales"], origin=kw["origin"]))
+    gn_un = grid_out(gn[~mb]); gn_masked = [float(v) for v in gn[mb].ravel()]
+    ga = grid_out(g2.grid_2d_slim_via_shape_native_from(**okw))
+    gan = grid_out(np.asarray(g2.grid_2d_via_shape_native_from(**okw)).reshape(-1, 2))
+    coq = [f"(KPixelCoords {M} {cgrid(pts)} {clist([czz(q) for q in pc])})", kgrid(f"(GScaledOfPixelCentres {cgrid(prm['pix'])})", m, ps, o, back),
+           f"(KPixelFloats {M} {cgrid(pts)} {cgrid(fpix)})", f"(KPixelCentres {M} {cgrid(pts)} {clist([czz(q) for q in cen])})",
+           f"(KPixelIndexes {M} {cgrid(pts)} {clist([cz(i) for i in idx])})", kgrid(f"(GScaledOfPixels {cgrid(prm['pix'])})", m, ps, o, sc),
+           f"(KPixelCentres {M} {cgrid(pts)} {clist([czz(q) for q in cen_nat])})",
+           kgrid("GFromMask", m, ps, o, gs), kgrid("GFromMask", m, ps, o, gn_un), kgrid("GAllFalse", full, ps, o, ga), kgrid("GAllFalse", full, ps, o, gan)]
+    rel = [("inv", pc), ("grid", back), ("inv", fpix), ("inv", cen), ("inv", idx), ("grid", sc), ("inv", cen_nat), ("grid", gs), ("grid", gn_un),
+           ("inv", gn_masked), ("grid", ga), ("grid", gan)]
+    return {"coq": coq, "rel": rel, "show": str(pc)}
+
+def op_one_d(aa, m, ps, o, dd, prm):
+    """the 1-D variants (Mask1D / Grid1D / Array1D / Geometry1D / geometry_util *_1d_*), once along each axis' scale and origin"""
+    from autoarray.geometry import geometry_util as gu
+    rel = []; shows = []; coq = []
+    for axis in (0, 1):
+        row = [bool(b) for b in (m[0] if axis == 1 else [r[0] for r in m])]
+        if prm["alt"]: row = [bool(b) for b in prm["row"]]
+        if all(row): row[0] = False
+        n = len(row); p1, o1 = ps[axis], o[axis]; k = CTX["fkind"]
+        kw = dict(pixel_scales=(kval(p1, k),) if k != "float" else float(p1), origin=(kval(o1, k),))
+        mask = aa.Mask1D(mask=row if CTX["prov"] == "list" else np.array(row), **kw)
+        if CTX["prov"] in ("copy", "pickle"):
+            import copy; mask = copy.deepcopy(mask)
+        g = [fr(v) for v in np.array(aa.Grid1D.from_mask(mask=mask))]
+        ga = [fr(v) for v in np.array(mask.derive_grid.all_false)]; gu_ = [fr(v) for v in np.array(aa.Grid1D.from_mask(mask=mask).slim)]
+        un = aa.Grid1D.uniform(shape_native=(n,), **kw); gun = [fr(v) for v in np.array(un)]
+        a1 = aa.Array1D.no_mask(values=[float(i) for i in range(n)], **kw)
+        a2 = aa.Array1D(values=np.arange(float(n)), mask=mask)
+        ao = aa.Array1D.ones(shape_native=n, **kw)
+        geo = mask.geometry
+        ext = tuple(fr(v) for v in geo.extent); smax = fr(geo.scaled_maxima[0]); smin = fr(geo.scaled_minima[0])
+        pts = [p + o1 for p in prm["pts"][axis]]
+        pc = [int(gu.pixel_coordinates_1d_from(scaled_coordinates_1d=(kval(x, CTX["pkind"]),), shape_slim=(n,), pixel_scales=(float(p1),), origins=(float(o1),))[0]) for x in pts]
+        sc = [fr(gu.scaled_coordinates_1d_from(pixel_coordinates_1d=(kval(q, CTX["pkind"]),), shape_slim=(n,), pixel_scales=(float(p1),), origins=(float(o1),))[0]) for q in prm["pix"]]
+        rel += [("grid1", (axis, g)), ("grid1", (axis, ga)), ("grid1", (axis, gu_)), ("grid1", (axis, gun)), ("grid1", (axis, [fr(un.mask.origin[0])])),
+                ("grid1", (axis, [fr(a1.mask.origin[0]), fr(a2.mask.origin[0]), fr(ao.mask.origin[0]), fr(a1.origin[0])])),
+                                ("grid1", (axis, list(ext))), ("grid1", (axis, [smax, smin])), ("inv", pc), ("grid1", (axis, sc)),
+                ("inv", [fr(v) for v in np.array(a2.native)])]
+        coq.append(f"(K1D {cbool(axis == 1)} {clist([cbool(b) for b in row])} {cq(p1)} {cq(o1)} {clist([cq(v) for v in g])} {clist([cq(v) for v in ga])} "
+                   f"{ctup([cq(ext[0]), cq(ext[1])])} {clist([cq(x) for x in pts])} {clist([cz(q) for q in pc])} {clist([cq(q) for q in prm['pix']])} {clist([cq(v) for v in sc])})")
+        shows.append([str(v) for v in g[:3]])
+    return {"coq": coq, "rel": rel, "show": str(shows)}
+
+def op_ds_interferometer(aa, m, ps, o, dd, prm):
+    """the interferometer sibling of the imaging dataset: the real-space mask carries the frame of every grid of the dataset"""
+    mask = mk_mask(aa, m, ps, o)
+    nv = 3
+    vis = aa.Visibilities(visibilities=np.array([1.0 + 2.0j, -1.0 + 0.5j, 0.25 - 1.0j]))
+    nm = aa.VisibilitiesNoiseMap(visibilities=np.full(nv, 1.0 + 1.0j))
+    uv = np.array([[1.0, 2.0], [-3.0, 0.5], [0.25, -1.0]])
+    ds = aa.Interferometer(data=vis, noise_map=nm, uv_wavelengths=uv, real_space_mask=mask, transformer_class=aa.TransformerDFT)
+    if prm["over"]:
+        osd = SHARED.setdefault("osd_i", aa.OverSamplingDataset(uniform=aa.OverSamplingUniform(sub_size=prm["sub"]), pixelization=aa.OverSamplingUniform(sub_size=2)))
+        ds = ds.apply_over_sampling(over_sampling=osd)
+    g = grid_out(ds.grids.uniform); gp = grid_out(ds.grids.pixelization)
+    sub = prm["sub"] if prm["over"] else 1
+    og = grid_out(ds.grids.uniform.over_sampler.over_sampled_grid)
+    ge = geom_of(ds.real_space_mask); gt = geom_of(ds.transformer.real_space_mask) if hasattr(ds.transformer, "real_space_mask") else ge
+    return {"coq": [kgrid("GFromMask", m, ps, o, g), kgrid("GFromMask", m, ps, o, gp), kgrid(f"(GOver {clist([cz(sub)] * nun_of(m))})", m, ps, o, og)],
+            "rel": [("grid", g), ("grid", gp), ("grid", og), ("geom", ge), ("geom", gt), ("geom", geom_of(ds.grids.uniform.mask)),
+                    ("grid", grid_out(ds.grids.border_relocator.sub_grid))], "show": jg(g[:3])}
+
 OPS = {
     "from_mask": op_simple(lambda p: "GFromMask", lambda aa, mask, p: aa.Grid2D.from_mask(mask=mask)),
     "dg_all_false": op_simple(lambda p: "GAllFalse", lambda aa, mask, p: mask.derive_grid.all_false),
@@ -808,6 +1246,7 @@ OPS = {
     "pixel_grids": op_pixel_grids, "scaled_of_pixels": op_scaled_of_pixels, "rect_mapper": op_rect_mapper,
     "ds_apply_mask": op_ds("apply_mask"), "ds_noise_scaling": op_ds("noise_scaling"), "ds_over_sampling": op_ds("over_sampling"),
     "ds_trimmed": op_ds("trimmed"), "ds_simulate": op_ds("simulate"), "ds_s2n": op_ds("s2n"),
+    "ctor": multi(ctor_one), "methods": multi(methods_one), "util": op_util, "one_d": op_one_d, "ds_interferometer": op_ds_interferometer,
 }
 
 def span_shape(rng, m, axis):
@@ -843,7 +1282,7 @@ PARAMS = {
     "pixel_coords": lambda rng, m, ps: {"pts": pts_for(rng, m, ps), "pix": [(F(rng.randint(-8, 40), 4), F(rng.randint(-8, 40), 4)) for _ in range(4)]},
     "pixel_grids": lambda rng, m, ps: {"pts": pts_for(rng, m, ps)},
     "scaled_of_pixels": lambda rng, m, ps: {"pix": [(F(rng.randint(-8, 40), 4), F(rng.randint(-8, 40), 4)) for _ in range(5)]},
-    "rect_mapper": lambda rng, m, ps: {"shape": (span_shape(rng, m, 0), span_shape(rng, m, 1)),
+    "rect_mapper": lambda rng, m, ps: {"shape": (span_shape(rng, m, 0), span_shape(rng, m, 1)), "via_mesh": rng.random() < 0.3, "mesh_shape": (rng.choice([3, 5, 7]), rng.choice([3, 4, 5, 7])),
                                        "buffer": min(ps) / 2 if rng.random() < 0.85 else F(1, rng.choice([2, 16, 1024]))},
     "ds_apply_mask": lambda rng, m, ps: {"vals": vals(rng, m), "psf": rng.random() < 0.3 and ps[0] == ps[1]},
     "ds_noise_scaling": lambda rng, m, ps: {"vals": vals(rng, m), "plain": rng.random() < 0.6},
@@ -851,6 +1290,18 @@ PARAMS = {
     "ds_trimmed": lambda rng, m, ps: {"vals": vals(rng, m), "k": (odd(rng, min(5, len(m))), odd(rng, min(5, len(m[0])))), "masked": rng.random() < 0.5},
     "ds_simulate": lambda rng, m, ps: {"vals": vals(rng, m), "poisson": rng.random() < 0.4},
     "ds_s2n": lambda rng, m, ps: {"vals": vals(rng, m)},
+    "ctor": lambda rng, m, ps: {"which": rng.sample(CTOR_KINDS, 5), "native": rng.random() < 0.5, "buffer": rng.random() < 0.5},
+    "methods": lambda rng, m, ps: {"which": rng.sample(METHOD_KINDS, 3), "shape": (rng.randint(1, 9), rng.randint(1, 9)), "pad": rng.choice([0.0, 0.0, 1.0]),
+                                   "k": (odd(rng, 7), odd(rng, 7)), "k3": (3, 3) if rng.random() < 0.6 else (odd(rng, 3), odd(rng, 3)),
+                                   "defl": [(rng.randint(-8, 8), rng.randint(-8, 8)) for _ in range(len(m) * len(m[0]))],
+                                   "coords": [(ps[0] * F(rng.randint(-12, 12), 4), ps[1] * F(rng.randint(-12, 12), 4)) for _ in range(rng.randint(1, 3))],
+                                   "aslist": rng.random() < 0.5, "dist": min(ps) * F(rng.choice([3, 5, 7, 11]), 8) * rng.choice([1, 1, 2]),
+                                   "buf": min(ps) * F(rng.choice([1, 2, 4]), 4) if max(ps) <= 16 * min(ps) else F(0)},     # (one buffer for both axes: commensurable scales only)
+    "util": lambda rng, m, ps: {"pts": pts_for(rng, m, ps), "pix": [(F(rng.randint(-8, 40), 4), F(rng.randint(-8, 40), 4)) for _ in range(4)]},
+    "one_d": lambda rng, m, ps: {"alt": rng.random() < 0.5, "row": [rng.random() < 0.4 for _ in range(rng.randint(1, 9))],
+                                 "pts": [[ps[ax] * F(rng.randint(-40, 40), 8) for _ in range(5)] for ax in (0, 1)],
+                                 "pix": [F(rng.randint(-8, 40), 4) for _ in range(4)]},
+    "ds_interferometer": lambda rng, m, ps: {"over": rng.random() < 0.5, "sub": rng.choice([1, 2, 4])},
 }
 
 TOL = 1e-9
